@@ -251,8 +251,8 @@ Definition on_stream (s : sv) (idx : nat) (e : sev) : istatus * sv * list tev :=
       end
   end.
 
-(* everything owned by the future is dropped when `run` returns (reverse declaration order:
-   reply_streams, then connections) *)
+(* `conn?` (mod.rs:79): an accept error ends `run`; everything owned by the future is dropped
+   (reverse declaration order: reply_streams, then connections) *)
 Definition exit_trace (s : sv) : list tev :=
   flat_map (fun x => [TSDrop (cid (snd x)) (fst x); TDrop (cid (snd x))]) (streams s)
   ++ map (fun c => TDrop (cid c)) (conns s) ++ [TExit].
@@ -261,7 +261,7 @@ Definition exit_trace (s : sv) : list tev :=
 Definition iteration (s : sv) : istatus * sv * list tev :=
   match accq s with
   | Some c :: q => (Progress, set_conns (set_accq s q) (conns s ++ [c]), [TAccept (cid c)])
-  | None :: q => (Stop Exited, set_accq s q, exit_trace s)
+  | None :: q => (Stop Exited, set_streams (set_conns (set_accq s q) []) [], exit_trace s)
   | [] =>
       match scan_calls (poll_order (lastc s) (length (conns s))) (conns s) with
       | (Some (idx, r), cs) => on_call s cs idx r
